@@ -167,6 +167,51 @@ def start_mesh(ck, case):
     if t == "skeleton":
         sk = impl.quiet(fs.skeleton.Skeleton, os.path.join(REPO, case["path"]), mirror_y=case.get("mirror", False))
         return impl.quiet(sk.create_lattice), None
+    if t == "se_gen":
+        # a Surface Evolver dump written by C14's independent serialiser (ids with gaps, negative references, any wrapping,
+        # unattached vertices and edges, chords) and parsed by the real parser
+        from props import c14
+        import tempfile
+        spec = c14.tissue_spec(ck, case)
+        if spec is None:
+            ck.count("se_gen_rejected")
+            return None, None
+        d = tempfile.mkdtemp(prefix="c09_")
+        try:
+            pth = os.path.join(d, "g.dmp")
+            with open(pth, "w", newline="") as fh:
+                fh.write(c14.serialise(spec, np.random.default_rng(case["seed"] + 1)))
+            se = impl.quiet(fs.surface_evolver.SurfaceEvolver, pth)
+        finally:
+            import shutil
+            shutil.rmtree(d, ignore_errors=True)
+        ck.count("se_gen_parsed")
+        return (se.vertices, se.edges, se.cells), None
+    if t == "skeleton_gen":
+        # rasterised Voronoi tissue (the generator of C15): thinned to a minimal skeleton, or left as drawn (Bresenham lines,
+        # which contain the artefact triangles that trigger vertex merging); optional right-angle jogs in the walls
+        from props import c15
+        import tempfile
+        tis, why = c15.make_tissue(case)
+        if tis is None:
+            ck.count("skeleton_gen_rejected_" + str(why))
+            return None, None
+        d = tempfile.mkdtemp(prefix="c09_")
+        try:
+            pth = os.path.join(d, "s.tif")
+            c15.to_file(tis["img"], pth, bool(case.get("frame")))
+            try:
+                sk = impl.quiet(fs.skeleton.Skeleton, pth, mirror_y=case.get("mirror", False))
+                out = c15.quiet_unraisable(impl.quiet, sk.create_lattice)
+            except Exception as ex:
+                # no mesh is produced: the property is about the meshes the parsers produce (parsing itself is C15's business)
+                ck.count("skeleton_gen_parser_raised_" + type(ex).__name__ + ("_thinned" if case.get("thin", True) else "_as_drawn"))
+                return None, None
+        finally:
+            import shutil
+            shutil.rmtree(d, ignore_errors=True)
+        ck.count("skeleton_gen_parsed_" + ("thinned" if case.get("thin", True) else "as_drawn"))
+        return out, None
     if t == "tess":
         pts = rng.random((case["n"], 2)) * 100
         centers = [tuple(p) for p in pts]
@@ -252,6 +297,19 @@ def run(ck):
         for t, pth in fx:
             cases.append({"type": t, "seed": 0, "path": pth, "steps": [["genmesh", 6, True], ["frame"], ["genmesh", 4, True]]})
         cases.append({"type": "skeleton", "seed": 0, "path": "tests/data/test_nonzero.tif", "mirror": True, "steps": [["genmesh", 5, False]]})
+        for i in range(8 if ck.tier == "quick" else 50):
+            cases.append({"type": "se_gen", "seed": int(ck.rng.integers(1 << 30)), "shape": "voronoi", "sites": int(ck.rng.integers(8, 28)),
+                          "kind": ["random", "jitter", "hex"][i % 3], "subset": [None, 0.6, 0.3][i % 3], "kmax": [0, 1, 3][(i // 3) % 3],
+                          "idmode": i % 3, "wrap": ["shipped", 2, 5, 60][i % 4], "p_flip": [0.5, 0.0, 1.0, 0.3][i % 4], "p_dens": 0.8, "p_orig": 0.3,
+                          "p_rev": [0.0, 0.5, 1.0][i % 3], "extra_v": i % 3, "extra_e": (i % 2) * 3, "chords": 1 if i % 4 == 1 else 0,
+                          "scale": 2, "tx": 0.0, "ty": 0.0, "nl": ["\n", "\r\n"][i % 2], "order": ["sorted", "shuffled"][i % 2],
+                          "p_suffix": 0.0, "body_ids": "face",
+                          "steps": [["genmesh", int(ck.rng.integers(2, 8)), False], ["frame"]] if i % 2 else [["frame"], ["genmesh", 4, True]]})
+        for i in range(8 if ck.tier == "quick" else 40):
+            cases.append({"type": "skeleton_gen", "seed": int(ck.rng.integers(1 << 30)), "sites": int(ck.rng.integers(24, 46)), "lloyd": int(ck.rng.integers(1, 4)),
+                          "ppc": int(ck.rng.integers(35, 46)), "subset_n": int(ck.rng.integers(6, 12)), "thin": bool(i % 2), "frame": bool((i // 2) % 2),
+                          "mirror": bool((i // 4) % 2),
+                          "steps": [["genmesh", int(ck.rng.integers(3, 10)), bool(i % 3 == 0)], ["frame"]]})
         for i in range(2 if ck.tier == "quick" else 8):
             cases.append({"type": "tess", "seed": int(ck.rng.integers(1 << 30)), "n": int(ck.rng.integers(12, 60)), "ring": bool(i % 2),
                           "maxd": [75, 40, 1e9][i % 3], "steps": [["frame"], ["genmesh", 3, True]]})
@@ -283,15 +341,19 @@ def run(ck):
         hist = ["parse"]
         stage_ok = True
 
-        def snapshot(label):
+        def snapshot(label, chain=False):
             bad = py_consistent(v, e, c)
             if bad:
                 # a WKT ring that repeats a coordinate (touches itself) is taken over as a cell repeating a vertex
                 sig = "wkt-row-repeats-a-coordinate" if (wk is not None and wk["repeats"]) else None
+                # finding D17 (see C11): two two-point interfaces that are both candidates for merging share a vertex
+                if chain:
+                    sig = "merge-chain-of-two-point-border-interfaces"
                 ck.fail(f"mesh consistent after {label}", "; ".join(bad[:3]), dict(case, upto=list(hist)), signature=sig)
             reqs.append({"op": "consistent", "mesh": mesh_json(v, e, c)})
             pending.append(("cons", dict(case, upto=list(hist)), not bad, None))
             ck.count("dumps")
+            return not bad
         snapshot("parsing")
         if wk is not None:
             reqs.append(wk["wkt_req"])
@@ -303,6 +365,13 @@ def run(ck):
         ck.count("parser_" + case["type"])
         for st in case.get("steps", []):
             if st[0] == "genmesh":
+                chain = False
+                if st[2]:
+                    ncell = {int(k): len(x.ownCells) for k, x in v.items()}
+                    cand = [[int(q) for q in p] for p in ve.create_edges_new(v, c)]
+                    cand = [p for p in cand if len(p) == 2 and len(p) <= st[1] and ncell[p[0]] < 3 and ncell[p[1]] < 3]
+                    ends = [q for p in cand for q in p]
+                    chain = len(set(ends)) < len(ends)
                 try:
                     v, e, c, _ = impl.quiet(ve.generate_mesh, v, e, c, ne=st[1], replace_short_edges=st[2])
                 except Exception as ex:
@@ -310,7 +379,8 @@ def run(ck):
                     ck.count("generate_mesh_raised_" + type(ex).__name__)
                     break
                 hist.append(st)
-                snapshot(f"generate_mesh(ne={st[1]}, replace_short_edges={st[2]})")
+                if not snapshot(f"generate_mesh(ne={st[1]}, replace_short_edges={st[2]})", chain):
+                    break           # nothing can be said about later steps on a mesh that is already inconsistent
             else:
                 fr = impl.make_frame((v, e, c))
                 keep.append(fr)
